@@ -290,6 +290,7 @@ func txRecordOf(mask int) *service.TxRecord {
 	if mask&4 != 0 {
 		t.Fields = value.NewMapValue()
 		t.Fields.PutString("f1", "v")
+		t.Fields.Put("f0", nil) // a key stored without a value travels as the empty text
 		t.Fields.PutLong("f2", 7)
 	}
 	if mask&8 != 0 {
@@ -334,6 +335,19 @@ func (k *ck) txRecords(kdev int) {
 				}
 				if want.Fields != nil && want.Fields.Size() == 0 {
 					want.Fields = nil
+				}
+				if want.Fields != nil {
+					// documented in the writer: a key without a value is sent as the empty text
+					nf := value.NewMapValue()
+					for ks := want.Fields.Keys(); ks.HasMoreElements(); {
+						k := ks.NextString()
+						if v := want.Fields.Get(k); v == nil {
+							nf.PutString(k, "")
+						} else {
+							nf.Put(k, v)
+						}
+					}
+					want.Fields = nf
 				}
 				if f := packs.Diff(&want, d); f != "" {
 					// wire-equivalence: narrowing fields re-encode identically. The records "as built"
